@@ -63,7 +63,7 @@ class MemoryControllerHub:
         (memaddrdesc, size) = memaddrdesc_size
         assert size == 1 or size == 2 or size == 4 or size == 8
         mc = self.get_memory_by_address(memaddrdesc.paddress.physicaladdress)
-        if mc is not None:
+        if mc is not None and memaddrdesc.paddress.physicaladdress + size <= mc.end:
             data = mc.mem[memaddrdesc.paddress.physicaladdress - mc.beginning, size]
             return to_int(data, size)
         return 0
@@ -78,7 +78,7 @@ class MemoryControllerHub:
         size = memaddrdesc_size[1]
         assert size == 1 or size == 2 or size == 4 or size == 8
         mc = self.get_memory_by_address(memaddrdesc.paddress.physicaladdress)
-        if mc is not None:
+        if mc is not None and memaddrdesc.paddress.physicaladdress + size <= mc.end:
             mc.mem[memaddrdesc.paddress.physicaladdress - mc.beginning, size] = from_int(value, size)
 
     def set_bits(self, memaddrdesc, size, ind, amount, bits):
